@@ -10,10 +10,12 @@ import time
 
 VERIF = os.path.dirname(os.path.dirname(os.path.abspath(__file__)))
 SPEC = os.path.join(VERIF, "spec")
-HARNESS = os.path.join(VERIF, "harness")
+# (the three overrides exist so that seeded changes can be evaluated against a scratch copy of the
+# repository while /repo itself is being used; registered checks never set them)
+HARNESS = os.environ.get("VERIF_HARNESS_DIR", os.path.join(VERIF, "harness"))
 VH = os.path.join(HARNESS, "target", "debug", "vh")
-WORK = os.path.join(VERIF, "work")
-EVID = os.path.join(VERIF, "evidence")
+WORK = os.environ.get("VERIF_WORK_DIR", os.path.join(VERIF, "work"))
+EVID = os.environ.get("VERIF_EVID_DIR", os.path.join(VERIF, "evidence"))
 NCPU = os.cpu_count() or 4
 
 
